@@ -689,12 +689,59 @@ func GenInputs(model string, r *core.Rand, T int, ps PSet) [][]float64 {
 	// a kernel compares or subtracts being EQUAL on a step (demand == available water, rainfall == PET, ...), and a
 	// water volume sitting EXACTLY on (or one representable number beside) the documented minimum-volume threshold.
 	if pairs, ok := tiePairs[model]; ok && r.Bool(0.3) {
-		pr := pairs[r.Intn(len(pairs))]
-		a, b := byName(pr[0]), byName(pr[1])
-		if a >= 0 && b >= 0 {
-			for t := 0; t < T; t++ {
-				if r.Bool(0.25) {
-					in[b][t] = in[a][t]
+		sel := [][2]string{pairs[r.Intn(len(pairs))]}
+		if r.Bool(0.4) {
+			sel = pairs // every compared pair tied on the SAME steps (inflow == demand while rainfall == PET ...)
+		}
+		steps := make([]bool, T)
+		for t := range steps {
+			steps[t] = r.Bool(0.25)
+		}
+		for _, pr := range sel {
+			a, b := byName(pr[0]), byName(pr[1])
+			if a >= 0 && b >= 0 {
+				for t := 0; t < T; t++ {
+					if steps[t] {
+						in[b][t] = in[a][t]
+					}
+				}
+			}
+		}
+	}
+	// Value PATTERNS over consecutive steps that independently drawn values never form: steady conditions (every input
+	// repeating bit for bit over a window), one input held constant while the others move, and a value of one step
+	// re-appearing on the next step in the input it is compared with (a wet day of net rain x followed by a dry day of
+	// net demand exactly x).
+	if T >= 4 && len(in) > 0 && !noPatterns[model] {
+		if r.Bool(0.25) { // steady window
+			t0 := r.Intn(T - 2)
+			t1 := minInt(T, t0+r.IntRange(3, 25))
+			for i := range in {
+				for t := t0 + 1; t < t1; t++ {
+					in[i][t] = in[i][t0]
+				}
+			}
+		}
+		if r.Bool(0.25) { // one input on a plateau, the others keep moving
+			i := r.Intn(len(in))
+			t0 := r.Intn(T - 2)
+			t1 := minInt(T, t0+r.IntRange(3, 12))
+			for t := t0 + 1; t < t1; t++ {
+				in[i][t] = in[i][t0]
+			}
+		}
+		if pairs, ok := tiePairs[model]; ok && r.Bool(0.25) { // echo: (a,b)[t] = (x,0), (a,b)[t+1] = (0,x)
+			pr := pairs[r.Intn(len(pairs))]
+			a, b := byName(pr[0]), byName(pr[1])
+			if a >= 0 && b >= 0 {
+				for k := r.IntRange(1, 4); k > 0; k-- {
+					t := r.Intn(T - 1)
+					x := in[a][t]
+					if x == 0 {
+						x = in[b][t] + 1
+					}
+					in[a][t], in[b][t] = x, 0
+					in[a][t+1], in[b][t+1] = 0, x
 				}
 			}
 		}
@@ -741,6 +788,9 @@ var paramTies = map[string]struct {
 	"USLEFineSedimentGeneration": {"rainfall", "RainThreshold", 0},
 	"PassLoadIfFlow":             {"flow", "", 1e-8},
 }
+
+// noPatterns: models whose inputs are not free series (calendar inputs, tables walked in order).
+var noPatterns = map[string]bool{"DateGenerator": true, "DynamicSednetGully": true, "DynamicSednetGullyAlt": true, "USLEFineSedimentGeneration": true}
 
 // tiePairs: inputs that a kernel compares with or subtracts from one another.
 var tiePairs = map[string][][2]string{
